@@ -3,6 +3,8 @@ package rules
 import (
 	"fmt"
 	"go/ast"
+	"go/constant"
+	"go/token"
 	"go/types"
 	"sort"
 	"strings"
@@ -18,11 +20,14 @@ func C10(r *core.Report) {
 		"R1 kind assertion - every typed index opener (new-format branch) passes meta.AssertIndexKind(K) on each success path and K is the very variable the matching writer stores as IndexKind; the magic of each file format is compared before success (tables/c10_invariants.json); " +
 		"R2 identity chain in NewEpochFromConfig - for every index opened there, every path from the open to the successful return passes a comparison of the index's epoch with the configured epoch and a comparison of its root CID with the running root CID (or the assignment that starts the chain), each with an error branch, unless the path goes through the explicit old-format test of that index; the Filecoin root is compared with the chain; the function-level root variable must be the one assigned and compared (a shadowed copy does not count); " +
 		"R3 the CID of the section read from the CAR is compared with the wanted CID (shared with C03: parseNodeFromSection); R4 metadata key agreement - the keys written by setDefaultMetadata are exactly the keys read by getDefaultMetadata, with inverse codecs, and the loader reads sig-exists / gsfa metadata under the keys their writers use. " +
+		"R5 the gsfa version gate - NewEpochFromConfig skips the gsfa identity comparison for manifest versions below a threshold, so NewManifest must install only headers whose version equals the current constant (literal with _Version, or a header that passed the equality test), and that constant lies at or above the threshold. " +
 		"Not decided: that stored values survive the round trip byte for byte; files swapped between two roles with identical kind/epoch/root."
 	c10KindAssertion(r)
 	checkInvariantTable(r, "C10.R1", "c10_invariants.json")
 	c10IdentityChain(r)
 	c10MetadataKeys(r)
+	c10GsfaVersionGate(r)
+	r.Floor("C10.R5", 3)
 	r.Floor("C10.R1", 8)
 	r.Floor("C10.R2", 10)
 	r.Floor("C10.R4", 4)
@@ -319,7 +324,6 @@ func c10MetadataKeys(r *core.Report) {
 	}
 }
 
-
 // derivedLocals: obj plus the local variables assigned (plain identifiers on the left-hand side only)
 // from expressions that mention an already derived variable.
 func derivedLocals(f *core.Func, obj types.Object) map[types.Object]bool {
@@ -357,4 +361,131 @@ func derivedLocals(f *core.Func, obj types.Object) map[types.Object]bool {
 		})
 	}
 	return d
+}
+
+// c10GsfaVersionGate (C10.R5): NewEpochFromConfig compares the gsfa index's epoch and root CID only for manifest versions
+// at or above a threshold (older manifests carry no metadata). That bypass is harmless only as long as the manifest opener
+// refuses every version but the current one: each header NewManifest installs is either built with the current version
+// constant or passed an equality test against it, and the current version lies above the threshold.
+func c10GsfaVersionGate(r *core.Report) {
+	const rule = "C10.R5"
+	p := r.Prog
+	nm := r.Anchor(rule, "gsfa/manifest.NewManifest")
+	ne := r.Anchor(rule, "main.NewEpochFromConfig")
+	if nm == nil || ne == nil {
+		return
+	}
+	info := nm.Pkg.TypesInfo
+	g := p.Graph(nm)
+	// the current version: a package-level variable (or constant) with a constant initializer that is never reassigned
+	var curObj types.Object
+	curV := int64(-1)
+	if mp := p.Pkg("gsfa/manifest"); mp != nil {
+		curObj = mp.Types.Scope().Lookup("_Version")
+		for _, file := range mp.Syntax {
+			ast.Inspect(file, func(m ast.Node) bool {
+				switch x := m.(type) {
+				case *ast.ValueSpec:
+					for i, nmid := range x.Names {
+						if mp.TypesInfo.Defs[nmid] == curObj && i < len(x.Values) {
+							if tv, ok := mp.TypesInfo.Types[x.Values[i]]; ok && tv.Value != nil {
+								curV, _ = constant.Int64Val(tv.Value)
+							}
+						}
+					}
+				case *ast.AssignStmt:
+					for _, l := range x.Lhs {
+						if id, ok := l.(*ast.Ident); ok && mp.TypesInfo.Uses[id] == curObj {
+							curV = -1 // reassigned somewhere: not a fixed version
+						}
+					}
+				}
+				return true
+			})
+		}
+	}
+	if curObj == nil || curV < 0 {
+		r.Undecided(rule, "gsfa/manifest._Version", "", "the current manifest version is not a package-level name with a constant initializer")
+		return
+	}
+	isCurConst := func(e ast.Expr) bool {
+		return core.ObjOf(info, core.Unparen(e)) == curObj
+	}
+	n := 0
+	for _, node := range stmtNodes(g) {
+		as, ok := node.Ast.(*ast.AssignStmt)
+		if !ok || len(as.Lhs) != 1 || len(as.Rhs) != 1 {
+			continue
+		}
+		sel, ok := core.Unparen(as.Lhs[0]).(*ast.SelectorExpr)
+		if !ok || sel.Sel.Name != "header" {
+			continue
+		}
+		n++
+		k := fmt.Sprintf("%s#header-installed@%d", nm.Key, n)
+		okv := false
+		rhs := core.Unparen(as.Rhs[0])
+		if u, isU := rhs.(*ast.UnaryExpr); isU && u.Op == token.AND {
+			rhs = core.Unparen(u.X)
+		}
+		if cl, isCL := rhs.(*ast.CompositeLit); isCL {
+			for _, el := range cl.Elts {
+				if kv, ok := el.(*ast.KeyValueExpr); ok && core.ExprStr(kv.Key) == "version" && isCurConst(kv.Value) {
+					okv = true
+				}
+			}
+		} else if ho := core.ObjOf(info, rhs); ho != nil {
+			for _, fc := range g.FactsAt(node) {
+				if fc.Tag != nil || !g.FactFresh(fc, node) {
+					continue
+				}
+				be, ok := core.Unparen(fc.Expr).(*ast.BinaryExpr)
+				if !ok || !((be.Op == token.NEQ && !fc.Truth) || (be.Op == token.EQL && fc.Truth)) {
+					continue
+				}
+				for _, pair := range [][2]ast.Expr{{be.X, be.Y}, {be.Y, be.X}} {
+					c, isC := core.Unparen(pair[0]).(*ast.CallExpr)
+					if !isC || !isCurConst(pair[1]) {
+						continue
+					}
+					if s2, ok := core.Unparen(c.Fun).(*ast.SelectorExpr); ok && s2.Sel.Name == "Version" && core.ObjOf(info, s2.X) == ho {
+						okv = true
+					}
+				}
+			}
+		}
+		r.Check(okv, rule, k, pos(r, as), "the installed header carries exactly the current manifest version",
+			"a manifest header whose version is not known to equal the current one is accepted: an old-format gsfa manifest opens, and NewEpochFromConfig then skips the epoch / root CID comparison for it")
+	}
+	if n == 0 {
+		r.Undecided(rule, nm.Key+"#header-installed", posP(r, nm.Pos()), "no assignment of the manifest header found")
+	}
+	// threshold of the bypass in NewEpochFromConfig
+	einfo := ne.Pkg.TypesInfo
+	found := false
+	ast.Inspect(ne.Body, func(m ast.Node) bool {
+		be, ok := m.(*ast.BinaryExpr)
+		if !ok || (be.Op != token.GEQ && be.Op != token.GTR) {
+			return true
+		}
+		c, ok := core.Unparen(be.X).(*ast.CallExpr)
+		if !ok || !strings.HasSuffix(core.CalleeName(einfo, c), "GsfaReader).Version") {
+			return true
+		}
+		thr, isC := core.ConstInt(einfo, be.Y)
+		if !isC {
+			return true
+		}
+		if be.Op == token.GTR {
+			thr++
+		}
+		found = true
+		r.Check(curV >= thr, rule, ne.Key+"#gsfa-identity-gate<=current-version", pos(r, be),
+			fmt.Sprintf("the identity comparison applies from manifest version %d on and the only accepted version is %d", thr, curV),
+			fmt.Sprintf("the gsfa identity comparison applies only from manifest version %d on but the accepted version is %d: the comparison is never made", thr, curV))
+		return true
+	})
+	if !found {
+		r.OK(rule, ne.Key+"#gsfa-identity-unconditional", posP(r, ne.Pos()), "no version gate in front of the gsfa identity comparison")
+	}
 }
